@@ -132,9 +132,12 @@ bool reachable(const json &plan, const std::string &file, const json &top_chunks
 	return false;
 }
 
-void check_fault(const json &plan, size_t main_step, const Source &src, const std::string &kind, const json &fault, int want_line, bool expect_error_possible, JudgeOut &out)
+void check_fault(const json &plan, size_t main_step, const Source &src, const std::string &kind, const json &fault, int want_line, bool expect_error_possible, JudgeOut &out, int want_lo = -1)
 {
 	(void)expect_error_possible;
+	// a cut inside a token that spans lines: the partial token may be rejected where it starts or where the input ends
+	if (want_lo < 0 || want_lo > want_line)
+		want_lo = want_line;
 	RunResult r = execute(plan);
 	add_exec_counters(out, r);
 	out.k.add("fault." + kind + ".fired");
@@ -172,7 +175,7 @@ void check_fault(const json &plan, size_t main_step, const Source &src, const st
 	const Diag &d = o->diags[0];
 	if (d.file != src.name)
 		out.viol.push_back({"wrong-file:" + kind, "the first diagnostic names file '" + d.file + "' (context '" + d.sec + "'), expected '" + src.name + "' line " + std::to_string(want_line) + " [" + what + "]", plan});
-	else if (d.line != want_line)
+	else if (d.line < want_lo || d.line > want_line)
 		out.viol.push_back({"wrong-line:" + kind, "the first diagnostic names " + d.file + ":" + std::to_string(d.line) + " (context '" + d.sec + "'), expected line " + std::to_string(want_line) + " [" + what + "]", plan});
 }
 
@@ -294,8 +297,11 @@ JudgeOut judge(const json &plan)
 			for (const char *key : {"mut", "cutat"})
 				if (so.contains(key)) {
 					int want = want_for(s, so["chunks"], key, so[key]);
+					int want_lo = -1;
+					if (std::string(key) == "cutat" && so[key][0].get<size_t>() < so["chunks"].size() && so[key][1].get<size_t>() < so["chunks"][so[key][0].get<size_t>()]["toks"].size())
+						want_lo = line_at(so["chunks"], so[key][0].get<size_t>(), so["chunks"][so[key][0].get<size_t>()]["toks"][so[key][1].get<size_t>()][0].get<size_t>());
 					if (want > 0 && (s.top || reachable(basep, s.name, top_chunks)))
-						check_fault(basep, (size_t)main_step, s, so.value("fkind", std::string(key)), so[key], want, true, out);
+						check_fault(basep, (size_t)main_step, s, so.value("fkind", std::string(key)), so[key], want, true, out, want_lo);
 				}
 		}
 		return out;
@@ -322,6 +328,8 @@ JudgeOut judge(const json &plan)
 				std::string role = toks[ti][2].get<std::string>(), vt = toks[ti][3].get<std::string>();
 				std::vector<std::pair<std::string, json>> faults; // (kind, {key,value})
 				bool in_kv = toks[ti].size() > 5 && toks[ti][5].get<int>() != 0;
+				if (role == "n" && vt != "kv" && !in_kv) // an empty quoted string where an option name is expected
+					faults.push_back({"empty_name", {{"key", "mut"}, {"value", json::array({ci, ti, "\"\""})}}});
 				if (role == "n" && vt != "kv" && !in_kv) // in a free-form section an unknown name is a new key, not an error
 					faults.push_back({"undeclared_name", {{"key", "mut"}, {"value", json::array({ci, ti, "nosuch_zz"})}}});
 				if (role == "v" && (vt == "int" || vt == "float" || vt == "bool"))
@@ -351,9 +359,10 @@ JudgeOut judge(const json &plan)
 					note_subcase(json::array({{{"op", "add"}, {"path", s.ptr + "/" + key}, {"value", f.second["value"]}}, {{"op", "add"}, {"path", s.ptr + "/fkind"}, {"value", f.first}},
 								  {{"op", "remove"}, {"path", "/params/enumerate"}}}));
 					int want = want_for(s, chunks, key, f.second["value"]);
+					int want_lo = key == "cutat" ? line_at(chunks, ci, toks[ti][0].get<size_t>()) : -1;
 					out.distinct.push_back(mix(mix(fp, fnv64(s.ptr + f.first)), ci * 1000 + ti));
 					size_t before = out.viol.size();
-					check_fault(p2, (size_t)main_step, s, f.first, f.second["value"], want, true, out);
+					check_fault(p2, (size_t)main_step, s, f.first, f.second["value"], want, true, out, want_lo);
 					for (size_t i = before; i < out.viol.size();) {
 						if (!seen.insert(out.viol[i].cls).second)
 							out.viol.erase(out.viol.begin() + i);
@@ -380,6 +389,7 @@ Property P = [] {
 	p.assumptions = {"M-line: the generator knows file and byte extent of every token it rendered; the expected line is 1 + the number of newlines before the token in its own file (each newline counted once)",
 			 "because the text before the injection point is valid and the parser is one-pass, the first diagnostic must be about the injected token",
 			 "the return code is observed, not predicted: a damaged text that is still accepted must deliver no diagnostic (whether it should be accepted is C01)",
+			 "for a cut inside a token that spans several lines any line from the token's first line to the line on which the delivered bytes end is accepted",
 			 "a plan whose undamaged text is not accepted is discarded and counted; premature ends inside included files are not injected (the scanner continues in the includer by design)",
 			 "the schedule dimension is empty for this property: the fault is a corruption / cut at a known instant of a known file in the simulated include tree"};
 	p.probes = {"rejected_with_position_checked", "error_inside_included_file", "callback_refusal_position_checked"};
